@@ -742,6 +742,41 @@ namespace bloch::compiler {
         return false;
     }
 
+    // '{...}' handed over anywhere but in a declaration (assignment, field or element assignment,
+    // argument, return): it needs an array target, and - the evaluator builds such a literal from
+    // the type of its elements, without the declaration's conversions - every element must have
+    // the target's element type (all-int literals also fit long[] and float[], widened whole).
+    void SemanticAnalyser::checkArrayLiteralValue(const TypeInfo& target, Expression* value,
+                                                  int line, int column) const {
+        rejectArrayLiteralInto(target, value, line, column);
+        Expression* v = value;
+        while (auto paren = dynamic_cast<ParenthesizedExpression*>(v)) v = paren->expression.get();
+        auto lit = dynamic_cast<ArrayLiteralExpression*>(v);
+        if (!lit || target.typeArgs.empty() || target.isTypeParam)
+            return;
+        const TypeInfo& elem = target.typeArgs.front();
+        if (!elem.className.empty() || elem.value == ValueType::Unknown)
+            return;  // arrays of objects: elements are checked as class references elsewhere
+        bool allInt = true;
+        for (auto& el : lit->elements) {
+            TypeInfo got = inferTypeInfo(el.get());
+            if (!got.className.empty() || got.value != ValueType::Int)
+                allInt = false;
+        }
+        if (allInt && (elem.value == ValueType::Long || elem.value == ValueType::Float))
+            return;
+        for (auto& el : lit->elements) {
+            TypeInfo got = inferTypeInfo(el.get());
+            bool known = got.value != ValueType::Unknown || !got.className.empty();
+            if (known && (!got.className.empty() || got.value != elem.value)) {
+                throw BlochError(ErrorCategory::Semantic, el->line > 0 ? el->line : line,
+                                 el->line > 0 ? el->column : column,
+                                 "array literal element expected '" + typeToString(elem.value) +
+                                     "' but got '" + typeLabel(got) + "'");
+            }
+        }
+    }
+
     bool SemanticAnalyser::isThisReference(Expression* expr) const {
         if (dynamic_cast<ThisExpression*>(expr))
             return true;
@@ -892,7 +927,10 @@ namespace bloch::compiler {
         // Array literals type-check every element against the documented conversions.
         if (auto arr = dynamic_cast<ArrayType*>(declaredType)) {
             auto elem = dynamic_cast<PrimitiveType*>(arr->elementType.get());
-            auto lit = dynamic_cast<ArrayLiteralExpression*>(initializer);
+            Expression* bare = initializer;
+            while (auto paren = dynamic_cast<ParenthesizedExpression*>(bare))
+                bare = paren->expression.get();
+            auto lit = dynamic_cast<ArrayLiteralExpression*>(bare);
             if (elem && lit) {
                 ValueType want = typeFromString(elem->name);
                 auto accepts = [](ValueType w, ValueType got) {
@@ -1825,7 +1863,7 @@ namespace bloch::compiler {
                              "Non-void function must return a value");
         }
         if (node.value) {
-            rejectArrayLiteralInto(m_currentReturn, node.value.get(), node.line, node.column);
+            checkArrayLiteralValue(m_currentReturn, node.value.get(), node.line, node.column);
             inferDiamondTypeArguments(node.value.get(), m_currentReturn, node.line, node.column);
             auto actual = inferTypeInfo(node.value.get());
             if (!isVoid) {
@@ -2027,7 +2065,7 @@ namespace bloch::compiler {
             if (node.value) {
                 TypeInfo targetType = getVariableType(node.name);
                 rejectQubitAssignment(targetType, node.line, node.column);
-                rejectArrayLiteralInto(targetType, node.value.get(), node.line, node.column);
+                checkArrayLiteralValue(targetType, node.value.get(), node.line, node.column);
                 inferDiamondTypeArguments(node.value.get(), targetType, node.line, node.column);
                 auto valType = inferTypeInfo(node.value.get());
                 if (valType.value == ValueType::Null) {
@@ -2054,7 +2092,7 @@ namespace bloch::compiler {
             if (node.value) {
                 TypeInfo targetType = field->type;
                 rejectQubitAssignment(targetType, node.line, node.column);
-                rejectArrayLiteralInto(targetType, node.value.get(), node.line, node.column);
+                checkArrayLiteralValue(targetType, node.value.get(), node.line, node.column);
                 inferDiamondTypeArguments(node.value.get(), targetType, node.line, node.column);
                 auto valType = inferTypeInfo(node.value.get());
                 bool fieldIsArray =
@@ -2356,7 +2394,7 @@ namespace bloch::compiler {
                 auto expected = params[i];
                 auto& arg = node.arguments[i];
                 auto actual = actualTypes[i];
-                rejectArrayLiteralInto(expected, arg.get(), arg->line, arg->column);
+                checkArrayLiteralValue(expected, arg.get(), arg->line, arg->column);
                 bool expectedIsArray =
                     expected.className.size() >= 2 &&
                     expected.className.rfind("[]") == expected.className.size() - 2;
@@ -2769,7 +2807,7 @@ namespace bloch::compiler {
             if (node.value) {
                 TypeInfo targetType = getVariableType(node.name);
                 rejectQubitAssignment(targetType, node.line, node.column);
-                rejectArrayLiteralInto(targetType, node.value.get(), node.line, node.column);
+                checkArrayLiteralValue(targetType, node.value.get(), node.line, node.column);
                 inferDiamondTypeArguments(node.value.get(), targetType, node.line, node.column);
                 auto valType = inferTypeInfo(node.value.get());
                 if (valType.value == ValueType::Null) {
@@ -2796,7 +2834,7 @@ namespace bloch::compiler {
             if (node.value) {
                 TypeInfo targetType = field->type;
                 rejectQubitAssignment(targetType, node.line, node.column);
-                rejectArrayLiteralInto(targetType, node.value.get(), node.line, node.column);
+                checkArrayLiteralValue(targetType, node.value.get(), node.line, node.column);
                 inferDiamondTypeArguments(node.value.get(), targetType, node.line, node.column);
                 auto valType = inferTypeInfo(node.value.get());
                 bool fieldIsArray =
@@ -2881,6 +2919,7 @@ namespace bloch::compiler {
             if (!searchType.typeArgs.empty() && cls)
                 targetType = substituteTypeParams(targetType, cls->typeParams, searchType.typeArgs);
             rejectQubitAssignment(targetType, node.line, node.column);
+            checkArrayLiteralValue(targetType, node.value.get(), node.line, node.column);
             inferDiamondTypeArguments(node.value.get(), targetType, node.line, node.column);
             auto valType = inferTypeInfo(node.value.get());
             bool fieldIsArray = targetType.className.size() >= 2 &&
@@ -2953,6 +2992,7 @@ namespace bloch::compiler {
 
         TypeInfo elemType = collectionType.typeArgs.front();
         rejectQubitAssignment(elemType, node.line, node.column);
+        checkArrayLiteralValue(elemType, node.value.get(), node.line, node.column);
         TypeInfo valType = inferTypeInfo(node.value.get());
 
         if (valType.value == ValueType::Null) {
